@@ -131,6 +131,13 @@ def _pal_unicode(p):
     p.strmap = lambda tok: "é" + tok + " \"q\" \\ /" if tok not in ("", ) else tok
 
 
+def _pal_ctrl(p):
+    # control characters (JSON must escape them): tab, newline, bell, CR LF, an inner NUL, line separator
+    odd = {"1": "\t", "2": "\n", "3": "\x07", "4": "\r\n", "5": "\x00", "6": "\u2028", "7": "\x1f", "8": "\x7f"}
+    p.idmap = lambda tok: tok[0] + odd.get(tok[-1], "\x0b") + tok
+    p.strmap = lambda tok: "\x01" + tok + "\n\t\u2028\"" if tok not in ("", ) else tok
+
+
 def _pal_numeric_ids(p):
     table = {"o1": "10", "o2": "9", "o3": "1e5", "o4": "007", "o5": "3.5", "o6": "-2",
              "s1": "010", "s2": "2", "s3": "1.0", "s4": "0x1", "s5": "33", "s6": "4",
@@ -168,7 +175,7 @@ def _pal_adversarial(p):
                  Fraction(20): 123456789.125}
 
 
-PALETTES = {"unicode": _pal_unicode, "numeric_ids": _pal_numeric_ids, "case_ids": _pal_case_ids,
+PALETTES = {"ctrl": _pal_ctrl, "unicode": _pal_unicode, "numeric_ids": _pal_numeric_ids, "case_ids": _pal_case_ids,
             "long_ids": _pal_long_ids, "scale_up": _pal_scale_up, "scale_down": _pal_scale_down,
             "adversarial": _pal_adversarial}
 ID_PALETTES = ["plain", "unicode", "numeric_ids", "case_ids", "long_ids"]
@@ -285,6 +292,32 @@ def md_abstract(md, pal):
     return {"has": True, "rows": [md_row_abstract(r, pal) for r in md]}
 
 
+# table id and type: header strings.  The id goes through the string map of the palette (the HDF5
+# placeholder is kept as it is); the type token "TyQ" stands for a type text with quotes and a backslash.
+ODD_TYPE = 'Ty"pe\\ x'
+
+
+def tid_concrete(pal, tok):
+    return pal.s(tok) if tok else tok
+
+
+def tid_abstract(pal, c):
+    if c is None:
+        return ""
+    c = str(c)
+    return c if c in ("", "No Table ID") else pal.s_inv(c)
+
+
+def type_concrete(tok):
+    return ODD_TYPE if tok == "TyQ" else tok
+
+
+def type_abstract(c):
+    if c is None:
+        return ""
+    return "TyQ" if str(c) == ODD_TYPE else str(c)
+
+
 # ------------------------------------------------------------------ tables
 def rep_of(t):
     """Hidden representation of the object under test, read WITHOUT touching it: no scipy method
@@ -328,8 +361,8 @@ def project(t, pal, with_lookups=True, scale=None):
     smd_raw = tt.metadata(axis="sample")
     out = {"obs": obs, "samp": samp, "mat": mat,
            "omd": md_abstract(omd_raw, pal), "smd": md_abstract(smd_raw, pal),
-           "type": "" if tt.type is None else str(tt.type),
-           "tid": "" if tt.table_id is None else str(tt.table_id),
+           "type": type_abstract(tt.type),
+           "tid": tid_abstract(pal, tt.table_id),
            "rep": rep}
     if with_lookups:
         out["lk"] = lookups(tt, obs_c, samp_c, omd_raw, smd_raw, pal, shape)
@@ -392,9 +425,9 @@ def build_table(spec, pal):
     smd = [md_row_concrete(r, pal) for r in spec["smd"]["rows"]] if spec["smd"]["has"] else None
     kw = {}
     if spec.get("type"):
-        kw["type"] = spec["type"]
+        kw["type"] = type_concrete(spec["type"])
     if spec.get("tid"):
-        kw["table_id"] = spec["tid"]
+        kw["table_id"] = tid_concrete(pal, spec["tid"])
     build = spec.get("build", "dense")
     if build == "dense":
         data = dense
